@@ -6,7 +6,7 @@ import ast
 import math
 import z3
 
-from .values import (SNum, SBool, SBytes, Opaque, Obj, SList, Unsupported, Infeasible, CUR, to_term,
+from .values import (SNum, SBool, SBytes, Opaque, OpaqueSeq, Obj, SList, Unsupported, Infeasible, CUR, to_term,
                      to_bool_term, mk_num, mk_bool, bytes_eq_branch, fresh_name)
 from .interp import (PyExc, raise_builtin, BEXC, BCls, Cls, Func, BoundMethod, Builtin, ExtModule, Module,
                      Super, _MISSING, is_subclass)
@@ -150,6 +150,10 @@ class Models(object):
                 x, n = (a, b) if is_bytes(a) else (b, a)
                 if isinstance(x, (bytes, bytearray)) and isinstance(n, int):
                     return bytes(x) * n
+                if isinstance(x, (bytes, bytearray)) and isinstance(n, SNum) and len(x) == 1:
+                    # a run of one constant octet of symbolic length (negative counts give b'')
+                    c = z3.IntVal(bytes(x)[0])
+                    return SBytes(z3.If(n.t > 0, n.t, z3.IntVal(0)), lambda i, c=c: c)
                 if isinstance(x, (bytes, bytearray)) and isinstance(n, SNum):
                     k = it.p.concretize(n.t, limit=40, what='bytes repeat count')
                     return bytes(x) * k
@@ -409,6 +413,11 @@ class Models(object):
         raise Unsupported('negate')
 
     def identical(self, a, b):
+        if isinstance(a, Opaque) or isinstance(b, Opaque):
+            p = CUR.path
+            if p is not None and getattr(self, '_light_identity', True):
+                # unknown identity: either (over-approximation; only reachable in light mode, where Opaque exists)
+                return SBool(z3.Bool(fresh_name('opq_is')))
         if a is None or b is None:
             if isinstance(a, Opaque) or isinstance(b, Opaque):
                 raise Unsupported('`is None` on opaque value')
@@ -535,6 +544,20 @@ class Models(object):
         if isinstance(idx, Opaque):
             return it.opaque('opaque subscript')
         if isinstance(base, dict):
+            if isinstance(idx, tuple) and not all_concrete(idx):
+                if it.light:
+                    if it.branch(z3.Bool(fresh_name('opq_keyerror'))):
+                        raise_builtin('KeyError', 'symbolic key')
+                    return it.opaque('lookup with a symbolic tuple key')
+                for k in base.keys():
+                    if isinstance(k, tuple) and len(k) == len(idx) and it.truth(self.equal(it, idx, k)):
+                        return base[k]
+                raise_builtin('KeyError', idx)
+            if isinstance(idx, (SNum, SBool, SStr, SBytes)) and it.light and len(base) > 6:
+                # light mode: do not fork over a large table; unknown entry, or KeyError
+                if it.branch(z3.Bool(fresh_name('opq_keyerror'))):
+                    raise_builtin('KeyError', 'symbolic key')
+                return it.opaque('lookup in a %d-entry table with a symbolic key' % len(base))
             if isinstance(idx, (SNum, SBool)):
                 # fork over the keys
                 for k in base.keys():
@@ -595,6 +618,9 @@ class Models(object):
         return _MISSING
 
     def getslice(self, it, base, lo, hi, step):
+        if isinstance(base, OpaqueSeq) and step is None and hi is None and isinstance(lo, int) and lo >= 0:
+            n = base.len
+            return OpaqueSeq(z3.If(n - lo > 0, n - lo, z3.IntVal(0)), base.why, base.kind)
         if isinstance(base, Opaque) or any(isinstance(x, Opaque) for x in (lo, hi, step)):
             return it.opaque('slice of opaque')
         if step is not None and step != 1:
